@@ -20,6 +20,7 @@ def run(idx, rep, tier):
         "through the argument groups of each call. R-ONSEGMENT: points returned as 'closest point on the segment' are start + p*d with p confined to [0,1] / [0,L] on every path (must-analysis with branch refinement). R-CLIPSYM: box / rectangle / cylinder coordinates are clipped to [-h, +h] with h half a size. R-MIRROR: the two halves of the line-to-box case analysis are mirror images under i0<->i1. R-CASEDISPATCH: on all 8 sign patterns of the line direction the case function moves along exactly the positive axes and clamps exactly the zero axes. R-TOURNAMENT: _case_no_zeros hands _box_face the axis that won all its pairwise comparisons. R-BOXFACE: the branches of _box_face are mirror images / verbatim re-uses of each other and every leaf uses one offset per axis in delta, squared distance and stored point. R-SQRTDOMAIN: math.sqrt arguments are >= 0 by construction (no bare differences). R-SELCOMP: a division by a component with a computed index selects a non-zero component first. R-HANG (engine E4): every loop of the package is CAP or STRUCT with literal "
         "or parameter bounds. R-EAGER (engine E1) on the calls into explicitly typed compiled helpers. R-RETDEGREE "
         "(engine E3: returned distance and points have length degree 1). R-FRAME / R-FRAMERET (engine E2) for the functions that evaluate in a local frame (box, cylinder, ellipsoid). "
+        "R-INSIDEZERO: point_to_ellipsoid returns (0, point) for interior points under the default flags (distance consistent with the returned point). "
         "Membership of arithmetically constructed leaf points within 1e-9 L, NaN-freedom and 'never raises' beyond "
         "signature conformance are NOT decided.")
     rep.assumptions = DOMAIN_D + ["primitive domain P: unit directions/normals, default epsilon arguments"]
@@ -54,6 +55,7 @@ def run(idx, rep, tier):
     mirror.r_tournament(idx, rep)
     mirror.r_boxface(idx, rep)
     safediv.r_selected_component(idx, rep)
+    misc2.r_insidezero(idx, rep)      # an interior point is its own closest point: the returned distance must be 0 there (consistency of distance and points)
     affine.r_affine(idx, rep, [m.name for m in idx.lib_modules() if m.name.startswith('distance3d.distance')], floor=40)      # closest points are points: position weight 1 through every private helper
     safediv.r_sqrtdomain(idx, rep, modules=["distance3d.distance"], floor=8, unknown_ceiling=8)
     mods = [x.name for x in idx.lib_modules() if x.name.startswith("distance3d.distance")]
